@@ -25,12 +25,17 @@ type cfg struct {
 	bs               int64
 	start            int64
 	collide          bool // generator may produce names that collide after 8.3 mapping
+	dirty            int  // 0: fresh zero-filled device; 1: every byte 0xFF before Create; 2: a position-dependent non-zero pattern (dirty.go)
 }
 
 func (c cfg) exactNames() bool { return c.rr || c.joliet }
 
 func (c cfg) String() string {
-	return fmt.Sprintf("rr=%v joliet=%v deep=%v bs=%d start=%d", c.rr, c.joliet, c.deep, c.bs, c.start)
+	s := fmt.Sprintf("rr=%v joliet=%v deep=%v bs=%d start=%d", c.rr, c.joliet, c.deep, c.bs, c.start)
+	if c.dirty != 0 {
+		s += fmt.Sprintf(" dirty=%d", c.dirty)
+	}
+	return s
 }
 
 const (
@@ -119,6 +124,9 @@ func build(root *node, c cfg) built {
 	size := est + 4<<20
 	size -= size % c.bs
 	dev := memdev.New(c.start + size + 1<<20)
+	if c.dirty != 0 {
+		prefill(dev, c.dirty)
+	}
 	b := built{dev: dev, size: size}
 	refused = nil
 	b.err, b.panicked = safely(func() error {
